@@ -6,12 +6,11 @@ export CARGO_NET_OFFLINE=true CARGO_TARGET_DIR="$root/.cache/target"
 mkdir -p .cache
 # 1. generated tables (translator, DESIGN 3.3) -- needs the harness
 cargo build --offline --manifest-path harness/Cargo.toml --bins 2>&1 | tail -3
+CARGO_TARGET_DIR="$root/.cache/target-plain" cargo build --offline --manifest-path harness_plain/Cargo.toml --bins 2>&1 | tail -1
+CARGO_TARGET_DIR="$root/.cache/target-plain" cargo build --offline --release --manifest-path harness_plain/Cargo.toml --bins 2>&1 | tail -1
 [ -x tools/gen_tables.py ] && python3 tools/gen_tables.py || true
 # 2. the whole Coq development (full .vo build)
-cd coq
-coq_makefile -f _CoqProject -o Makefile
-make -k -j16 2>&1 | grep -v '^COQDEP\|^COQC\|Closed under the global context' | tail -40
-cd ..
+python3 tools/coqmake.py | grep -v 'Closed under the global context' | tail -40
 # 3. extracted models
 for f in coq/model_*.ml; do
   a="$(basename "$f" .ml)"; a="${a#model_}"
